@@ -13,6 +13,11 @@ import numpy as np
 from .calib_util import FloatSpec, f2b, fl, num, vals, err, quiet, RTOL
 
 DB_TOL = 1e-9      # property tolerance of the oracle, in dB
+# absolute transcription tolerance of dB-valued replies (get_sens / get_db / get_attenuation / get_gain): a level that
+# cancels (level 0, attenuation -6, sensitivity -6 + 3e-8 -> gain -3.5e-8 dB) has no meaningful *relative* accuracy.
+# Measured on the unchanged library (recon/h-calib/m07b.py, 4 seeds x 706 cases): worst |model - code| = 5.7e-14 dB
+# (round-off of the interpolation at table magnitudes of ~100 dB); 1e-11 dB is 100 x below the property tolerance.
+DB_ATOL = 1e-11
 
 
 # ------------------------------------------------------------------ construction
@@ -284,7 +289,7 @@ def run_query(cal, q, k=None):
     get_db = cal.get_spl if q.get('spl') else cal.get_db
     try:
         if o == 'sens':
-            return num(np.asarray(cal.get_sens(_freq(q)), dtype=float)[()])
+            return num(np.asarray(cal.get_sens(_freq(q)), dtype=float)[()], atol=DB_ATOL)
         if o == 'sf':
             if q.get('kw'):
                 return num(np.asarray(cal.get_sf(_freq(q), _num(q, 'L'), attenuation=_num(q, 'A')), dtype=float)[()])
@@ -292,13 +297,13 @@ def run_query(cal, q, k=None):
                 return num(np.asarray(cal.get_sf(_freq(q), _num(q, 'L')), dtype=float)[()])
             return num(np.asarray(cal.get_sf(_freq(q), _num(q, 'L'), _num(q, 'A')), dtype=float)[()])
         if o == 'db':
-            return num(np.asarray(get_db(_freq(q), _num(q, 'v')), dtype=float)[()])
+            return num(np.asarray(get_db(_freq(q), _num(q, 'v')), dtype=float)[()], atol=DB_ATOL)
         if o == 'att':
-            return num(np.asarray(cal.get_attenuation(_freq(q), _num(q, 'v'), _num(q, 'L')), dtype=float)[()])
+            return num(np.asarray(cal.get_attenuation(_freq(q), _num(q, 'v'), _num(q, 'L')), dtype=float)[()], atol=DB_ATOL)
         if o == 'gain':
             if q.get('kw'):
-                return num(np.asarray(cal.get_gain(_freq(q), _num(q, 'L'), attenuation=_num(q, 'A')), dtype=float)[()])
-            return num(np.asarray(cal.get_gain(_freq(q), _num(q, 'L'), _num(q, 'A')), dtype=float)[()])
+                return num(np.asarray(cal.get_gain(_freq(q), _num(q, 'L'), attenuation=_num(q, 'A')), dtype=float)[()], atol=DB_ATOL)
+            return num(np.asarray(cal.get_gain(_freq(q), _num(q, 'L'), _num(q, 'A')), dtype=float)[()], atol=DB_ATOL)
         if o == 'meansf':
             n = max(1, q['fub'] - q['flb'])
             flb, fub = q['flb'], q['fub']
@@ -344,7 +349,7 @@ def run_query(cal, q, k=None):
                 args.append(va)
                 keeps.append(np.array(q['vs'], dtype=float).reshape(np.shape(va)))
                 r = get_db(fa, va)
-            out = vals(r)                       # values copied out here
+            out = vals(r, atol=DB_ATOL if o != 'sfv' else 0.0)      # values copied out here
             if not _arr_unchanged(args, keeps):
                 return err('ArgumentModified')
             if np.shape(r) != np.shape(fa) and not (q.get('series') or q.get('frame')):
@@ -355,7 +360,7 @@ def run_query(cal, q, k=None):
         if o == 'tomvpa':
             return num(cal.to_mv_pa())
         if o == 'sensitivity':
-            return vals(np.atleast_1d(np.asarray(cal.sensitivity, dtype=float)))
+            return vals(np.atleast_1d(np.asarray(cal.sensitivity, dtype=float)), atol=DB_ATOL)
         if o == 'set_fixed_gain':
             cal.set_fixed_gain(rep_scalar(q['G'], q.get('nr')))
             return ('ok',)
@@ -838,7 +843,13 @@ class C07(FloatSpec):
             'per-row vrms, shuffled tables), each with 8-14 queries (get_sens/get_sf/get_db/get_attenuation/get_gain, '
             'get_mean_sf, array and Series forms, set_fixed_gain, to_mv_pa) at frequencies on / between / just outside / '
             'far outside the table; levels -20..120, attenuations 0..120. A case is non-trivial when at least one query '
-            'returns a number and the calibration is not the unity one; distinct = distinct case hash.')
+            'returns a number and the calibration is not the unity one; distinct = distinct case hash. Hardening: tables '
+            'ascending / descending / in measurement order, held as list, tuple, (int64, float32, strided, read-only) '
+            'ndarray or Series and optionally overwritten by the caller afterwards; numbers spelled as Python / NumPy ints '
+            'and floats, 0-d arrays; positional and keyword arguments; array queries in the same containers (law: array '
+            'form = scalar form point by point), DataFrame form, get_spl alias; a twin object differing in one parameter; '
+            'the same query repeated; gain changed after first use and set back; two tables of 1500-3000 rows with '
+            '4000-20000 query frequencies per run.')
 
     def gen(self, rng, tier):
         n = 700 if tier == 'quick' else 14000
